@@ -23,6 +23,16 @@ import (
 
 const VerifDir = "/verif"
 
+// StateDir is where evidence/, replay/ and out/ are written: /verif unless
+// VERIF_STATE_DIR is set (used when a check is run against a scratch copy of
+// the repository, so that the committed evidence is not overwritten).
+func StateDir() string {
+	if d := os.Getenv("VERIF_STATE_DIR"); d != "" {
+		return d
+	}
+	return VerifDir
+}
+
 // Run is the per-check context. All methods are safe for concurrent use.
 type Run struct {
 	ID    string
@@ -229,7 +239,7 @@ func (r *Run) Violation(sig string, what string, witness any) bool {
 	if n > 25 {
 		return true // enough witnesses; keep counting only
 	}
-	dir := filepath.Join(VerifDir, "replay", r.ID)
+	dir := filepath.Join(StateDir(), "replay", r.ID)
 	_ = os.MkdirAll(dir, 0o755)
 	path := filepath.Join(dir, fmt.Sprintf("%s-seed%d-%d.json", r.Tier, r.Seed, n))
 	w := map[string]any{"property": r.ID, "tier": r.Tier, "seed": r.Seed, "signature": sig, "what": what, "witness": witness}
@@ -339,7 +349,7 @@ func (r *Run) writeEvidence() {
 		fmt.Fprintf(os.Stderr, "evidence marshal: %v\n", err)
 		return
 	}
-	dir := filepath.Join(VerifDir, "evidence")
+	dir := filepath.Join(StateDir(), "evidence")
 	_ = os.MkdirAll(dir, 0o755)
 	_ = os.WriteFile(filepath.Join(dir, r.ID+".json"), append(b, '\n'), 0o644)
 }
@@ -438,7 +448,7 @@ func (r *Run) Finish() int {
 // happens on a dependency goroutine) is observed and classified.
 func parent(id, level, tier string, seed int64, opt Options) int {
 	start := time.Now()
-	outDir := filepath.Join(VerifDir, "out", id)
+	outDir := filepath.Join(StateDir(), "out", id)
 	_ = os.MkdirAll(outDir, 0o755)
 	errPath := filepath.Join(outDir, fmt.Sprintf("child-%s.stderr", tier))
 	ef, err := os.Create(errPath)
@@ -647,7 +657,7 @@ func postRace(id, level, tier string, seed int64, code int, prefix string, opt O
 		}
 	}
 	// patch the evidence file the child wrote
-	evPath := filepath.Join(VerifDir, "evidence", id+".json")
+	evPath := filepath.Join(StateDir(), "evidence", id+".json")
 	if b, err := os.ReadFile(evPath); err == nil {
 		var ev map[string]any
 		if json.Unmarshal(b, &ev) == nil {
